@@ -1,6 +1,7 @@
 import SciVerif.Lemmas.StuckCore
 import SciVerif.Lemmas.Net
 import SciVerif.Lemmas.NetSlots
+import SciVerif.Lemmas.NetFine
 import SciVerif.Lemmas.Slots
 import SciVerif.Props.C16
 import SciVerif.Props.C08
@@ -40,6 +41,12 @@ and whether it returned; channel occupancy is the difference of two counters):
   task waits for `cores v` of `max` slots, runs, releases them and only then offers `Done`, with
   head-of-queue forwarding (`Model/NetSlots.lean`) — by projecting stuck states onto the counting model; the
   abstraction "a created task always becomes forwardable" is thereby a theorem, given `cores v ≤ max`.
+* `c05_channel_ops_no_deadlock` / `_runs_are_finite` / `_complete` / `_capacity`: the same statements for the
+  model in which every single channel operation is a step (`Model/NetFine.lean`): a process reads its in-ports
+  one after the other in any order, holding the items already read, and sends a finished task's outputs
+  consumer by consumer, each send blocking on that consumer's channel alone — which is what `receiveOnInPorts`
+  and the send loop of `Process.Run` do. The atomic `create` / `forward` of the counting model are thereby no
+  longer an assumption: no interleaving of the individual reads and sends can block a balanced network.
 Not covered by the positive theorems: processes that read a whole stream before emitting (the combinators,
 Concatenator, StreamToSubStream) — with one of them in a reconverging fan-out even a balanced network deadlocks
 once a stream is longer than the buffer (`c05_network_batch_deadlocks`, finding F23, reproduced on the real code).
@@ -253,8 +260,80 @@ theorem c05_network_needs_buffer :
     (run (netChain2 1 0) (init 2) [.create ⟨0, by omega⟩]).map
       (fun s => (stuckB (netChain2 1 0) s, s.term ⟨0, by omega⟩, s.term ⟨1, by omega⟩)) = some (true, false, false) := by decide
 
+/-! ### the network at the granularity of channel operations -/
+open SciVerif.Net SciVerif.NetFine in
+/-- progress: whatever the order of the individual reads and sends so far, a reachable state with an unreturned
+process has an enabled channel operation -/
+theorem c05_channel_ops_no_deadlock {n : Nat} (net : Net n) (N : Nat) (hbal : balanced net N) (hac : acyclic net)
+    (hB : 1 ≤ net.B) (ls : List (FLbl n)) (s : FSt n) (hr : frun net (finit n) ls = some s)
+    (v : Fin n) (hv : s.term v = false) : ∃ l s', fstep net s l = some s' := by
+  have hinv := frun_inv net N hbal ls _ _ (finv_init net N) hr
+  apply Classical.byContradiction
+  intro hno
+  have hst : fstuck net s := by
+    intro l
+    cases h : fstep net s l with
+    | none => rfl
+    | some s' => exact absurd ⟨l, s', h⟩ hno
+  have := fno_stuck net N hbal hac hB s hinv hst v
+  simp [hv] at this
+
+open SciVerif.Net SciVerif.NetFine in
+theorem c05_channel_ops_runs_are_finite {n : Nat} (net : Net n) (N : Nat) (hbal : balanced net N)
+    (ls : List (FLbl n)) (s : FSt n) (hr : frun net (finit n) ls = some s) :
+    ls.length ≤ n * (2 * N + 1) + n * (n * (2 * N)) := by
+  have := frun_mu net N hbal ls _ _ (finv_init net N) hr
+  rw [fmu_init] at this
+  omega
+
+open SciVerif.Net SciVerif.NetFine in
+/-- a maximal run ends with every process returned after exactly `N` tasks, and on every connection all `N` items
+sent have been read: nothing is left in a channel or in a reader's hand -/
+theorem c05_channel_ops_complete {n : Nat} (net : Net n) (N : Nat) (hbal : balanced net N) (hac : acyclic net)
+    (hB : 1 ≤ net.B) (ls : List (FLbl n)) (s : FSt n) (hr : frun net (finit n) ls = some s)
+    (hmax : fstuck net s) :
+    (∀ v, s.term v = true ∧ s.c v = N ∧ s.f v = N) ∧ (∀ u w, u ∈ net.ins w → s.s u w = N ∧ s.r u w = N) := by
+  have hinv := frun_inv net N hbal ls _ _ (finv_init net N) hr
+  have hall : ∀ v, s.term v = true ∧ s.c v = N ∧ s.f v = N := fun v =>
+    have ht := fno_stuck net N hbal hac hB s hinv hmax v
+    ⟨ht, hinv.tm v ht⟩
+  refine ⟨hall, ?_⟩
+  intro u w hu
+  have h1 := hinv.sf u w hu
+  have h2 := hinv.rc u w hu
+  have := (hall u).2; have := (hall w).2
+  omega
+
+open SciVerif.Net SciVerif.NetFine in
+/-- no channel ever holds more than `B` items, and a reader holds at most one item per in-port in hand -/
+theorem c05_channel_ops_capacity {n : Nat} (net : Net n) (N : Nat) (hbal : balanced net N)
+    (ls : List (FLbl n)) (s : FSt n) (hr : frun net (finit n) ls = some s) (u w : Fin n) (hu : u ∈ net.ins w) :
+    s.s u w ≤ s.r u w + net.B ∧ s.r u w ≤ s.c w + 1 := by
+  have hinv := frun_inv net N hbal ls _ _ (finv_init net N) hr
+  exact ⟨hinv.cap u w hu, (hinv.rc u w hu).2.1⟩
+
+open SciVerif.Net SciVerif.NetFine in
+/-- non-vacuity: in the join of two sources (B = 1) the reader takes the item of its second in-port first and holds
+it while the first source has not sent anything; the state is reachable, not stuck, and not final -/
+example : (frun (netJoin 2 2 1) (finit 3)
+      [.create ⟨1, by omega⟩, .send ⟨1, by omega⟩ ⟨2, by omega⟩, .forward ⟨1, by omega⟩, .recv ⟨2, by omega⟩ ⟨1, by omega⟩,
+       .create ⟨1, by omega⟩, .send ⟨1, by omega⟩ ⟨2, by omega⟩]).map
+      (fun s => (fstuckB (netJoin 2 2 1) s, s.r ⟨1, by omega⟩ ⟨2, by omega⟩, s.c ⟨2, by omega⟩, s.s ⟨1, by omega⟩ ⟨2, by omega⟩)) =
+    some (false, 1, 0, 2) := by decide
+
+open SciVerif.Net SciVerif.NetFine in
+/-- negative (F18) at this granularity: with B = 0 no send is ever possible -/
+theorem c05_channel_ops_needs_buffer :
+    (frun (netChain2 1 0) (finit 2) [.create ⟨0, by omega⟩]).map
+      (fun s => (fstuckB (netChain2 1 0) s, s.term ⟨0, by omega⟩, s.term ⟨1, by omega⟩)) = some (true, false, false) := by decide
+
 end SciVerif.C05
 
+#print axioms SciVerif.C05.c05_channel_ops_no_deadlock
+#print axioms SciVerif.C05.c05_channel_ops_runs_are_finite
+#print axioms SciVerif.C05.c05_channel_ops_complete
+#print axioms SciVerif.C05.c05_channel_ops_capacity
+#print axioms SciVerif.C05.c05_channel_ops_needs_buffer
 #print axioms SciVerif.C05.c05_network_no_deadlock
 #print axioms SciVerif.C05.c05_network_runs_are_finite
 #print axioms SciVerif.C05.c05_network_complete
